@@ -8,9 +8,11 @@ import (
 	"sync/atomic"
 
 	"github.com/robfig/soy"
+	"github.com/robfig/soy/ast"
 	"github.com/robfig/soy/data"
 	"github.com/robfig/soy/soyhtml"
 	"github.com/robfig/soy/soymsg"
+	"github.com/robfig/soy/template"
 
 	"verif/fw"
 	"verif/gen"
@@ -186,4 +188,22 @@ func errText(err error) string {
 		return ""
 	}
 	return fw.Trim(fmt.Sprint(err), 600)
+}
+
+// identityCatalogue maps every message of the registry that is not a plural to its own text.
+func identityCatalogue(reg *template.Registry) *fakeBundle {
+	idb := &fakeBundle{msgs: map[uint64]*soymsg.Message{}, locale: "xx"}
+	for _, t := range reg.Templates {
+		walkAst(t.Node, func(n ast.Node) {
+			if m, ok := n.(*ast.MsgNode); ok {
+				for _, c := range m.Body.Children() {
+					if _, isPl := c.(*ast.MsgPluralNode); isPl {
+						return
+					}
+				}
+				idb.msgs[m.ID] = soymsg.NewMessage(m.ID, soymsg.PlaceholderString(m))
+			}
+		})
+	}
+	return idb
 }
